@@ -66,17 +66,19 @@ def build(spec, pool, *, typed=False, kinds=None, tree=None):
 
     def parts(lab):
         if isinstance(lab, dict):
-            return lab["a"], lab.get("k"), lab.get("did")
+            return lab["a"], lab.get("k"), lab.get("did"), lab.get("nid")
         if isinstance(lab, tuple):
-            return lab[0], lab[1], None
-        return lab, None, None
+            return lab[0], lab[1], None, None
+        return lab, None, None, None
 
     def add(parent, s):
         for lab, kids in s:
-            a, k, did = parts(lab)
+            a, k, did, nid = parts(lab)
             kw = {}
             if did is not None:
                 kw["data_id"] = did
+            if nid is not None:
+                kw["node_id"] = nid
             if typed:
                 n = parent.add(pool.objs[a], kind=k or "child", **kw)
             else:
